@@ -145,12 +145,13 @@ def shards(tier, seed):
     # chunked bodies looked at through the form / JSON accessors (they read the decoded body into memory up to max_memfile_size):
     # the whole value or a client error, never the beginning of it
     out.append(('form', 16 if tier == 'quick' else 24, None))
+    out += [('mp', B, None) for B in (8, 64, 102400)]
     return [t + (tier,) for t in out]
 
 
 def bounds(tier, seed):
     s = shards(tier, seed)
-    s = [t for t in s if not t[0].startswith('hist') and t[0] != 'form']
+    s = [t for t in s if not t[0].startswith('hist') and t[0] not in ('form', 'mp')]
     return {'history_layer': 'all ordered pairs (thorough: triples over a smaller menu) of requests from a menu of legal '
                              'encodings, all their truncations and some corruptions, decoded one after the other in '
                              'one process',
@@ -183,11 +184,12 @@ def cl_for(raw, B):
 
 
 CL_MODE = [False]       # set by the '+cl' shards (and by the replay of their cases)
+CTYPE_MODE = [None]     # set by the 'mp' shard: the chunked body is a multipart form (it is parsed while it is decoded)
 
 
 def run_component(om, errs, ex, raw, B, short=True):
     stream = ChoiceStream(ex, raw, _src_prefix(), short=short, menu_cap=6 if len(raw) > 30 else None)
-    env = wsgi.environ('POST', '/', input=stream, clen=cl_for(raw, B), chunked=True)
+    env = wsgi.environ('POST', '/', input=stream, clen=cl_for(raw, B), chunked=True, ctype=CTYPE_MODE[0])
     req = om.Request(env, config={'max_memfile_size': B})
     obs = {'hang': False, 'err': None, 'client_error': False, 'content': None}
     try:
@@ -234,7 +236,7 @@ def run_wsgi(om, errs, ex, raw, B, short=True):
         b2 = app.request.body.read()
         return b1 if b1 == b2 else b'SECOND-LOOK-DIFFERS:' + b1 + b'|' + b2
     app.route('/p', 'POST', h)
-    env = wsgi.environ('POST', '/p', input=stream, clen=cl_for(raw, B), chunked=True)
+    env = wsgi.environ('POST', '/p', input=stream, clen=cl_for(raw, B), chunked=True, ctype=CTYPE_MODE[0])
     obs = {'hang': False, 'err': None, 'client_error': False, 'content': None}
     try:
         c = wsgi.call(app, env)
@@ -344,7 +346,7 @@ def explore_case(res, om, errs, runner, kind, raw, B, mode, payload, fits, case_
         verdicts.add('client_error' if obs['client_error'] else 'body')
         if v is not None:
             case = {'kind': kind, 'raw': raw, 'B': B, 'mode': mode, 'payload': payload, 'fits': fits,
-                    'choices': choices, 'short': short, 'with_cl': CL_MODE[0]}
+                    'choices': choices, 'short': short, 'with_cl': CL_MODE[0], 'ctype': CTYPE_MODE[0]}
             if allowed is not None:
                 case['allowed'] = list(allowed)
             case.update(case_extra)
@@ -505,6 +507,38 @@ def work_form(spec):
     return res
 
 
+MP_PAYLOAD = b'--b\r\nContent-Disposition: form-data; name="a"\r\n\r\nv\r\n--b--\r\nepilogue-bytes'
+
+
+def work_mp(spec):
+    """a chunked multipart form whose closing delimiter ends in a chunk that is not the last one: the decoder still delivers every chunk
+    and still refuses every truncation (the multipart scanner runs while the body is decoded)"""
+    _, B, _, tier = spec
+    res = core.new_result()
+    om = sut.load()
+    errs = sut.sub('request_pkg.errors')
+    payload = MP_PAYLOAD
+    L = len(payload)
+    close_end = payload.index(b'--b--') + 5
+    CTYPE_MODE[0] = 'multipart/form-data; boundary=b'
+    try:
+        for sizes in ((L,), (close_end, L - close_end), (close_end + 2, 7, L - close_end - 9), (10, close_end - 10, 3, L - close_end - 3), (close_end - 1, 1, L - close_end)):
+            raw, framing, after_data, zero_end, longest = encode(payload, sizes, '%x', b'', b'', True)
+            for runner, kind in ((run_component, 'comp'), (run_wsgi, 'wsgi')):
+                horizon = 20 * (len(raw) + 5)
+                explore_case(res, om, errs, runner, kind, raw, B, 'legal', payload, longest <= B, {'what': 'legal', 'sizes': list(sizes), 'fmt': '%x'}, horizon, short=False)
+                res['counters']['multipart_chunked'] += 1
+                for p in range(len(raw)):
+                    mode = 'must-reject' if p < zero_end else 'legal'
+                    explore_case(res, om, errs, runner, kind, raw[:p], B, mode, payload, longest <= B, {'what': 'prefix', 'cut': p}, horizon, short=False)
+                    res['states'] += 1
+    finally:
+        CTYPE_MODE[0] = None
+    core.untrack()
+    core.add_sample(res, {'kind': 'mp', 'payload': payload, 'buffer': B})
+    return res
+
+
 def work(spec):
     CL_MODE[0] = spec[0].endswith('+cl')
     try:
@@ -520,6 +554,8 @@ def _work(spec):
         return work_long(spec)
     if spec[0] == 'form':
         return work_form(spec)
+    if spec[0] == 'mp':
+        return work_mp(spec)
     kind, n, B, tier = spec
     res = core.new_result()
     om = sut.load()
@@ -590,10 +626,12 @@ def _work(spec):
 
 def replay(case):
     CL_MODE[0] = bool(case.get('with_cl'))
+    CTYPE_MODE[0] = case.get('ctype')
     try:
         return _replay(case)
     finally:
         CL_MODE[0] = False
+        CTYPE_MODE[0] = None
 
 
 def _replay(case):
@@ -633,6 +671,6 @@ def _replay(case):
     v = judge(case['mode'], obs, case['payload'], case['fits'], case.get('allowed'))
     if v is None:
         return None
-    return (f'{case["kind"]}: chunked body {raw!r} ({case["what"]}; Content-Length header {"absent" if cl_for(raw, B) is None else cl_for(raw, B)}) with max_memfile_size={B}, reads '
+    return (f'{case["kind"]}: chunked body {raw!r} ({case["what"]}; {"Content-Type " + case["ctype"] + "; " if case.get("ctype") else ""}Content-Length header {"absent" if cl_for(raw, B) is None else cl_for(raw, B)}) with max_memfile_size={B}, reads '
             f'{[r for r, _ in obs["calls"]]} answered with {[k for _, k in obs["calls"]]} bytes: {v[1]} '
             f'(payload {case["payload"]!r})')
